@@ -69,13 +69,13 @@ impl RawSock {
 impl ReaderHandle { pub uninterp spec fn aborted(&self) -> bool; }
 #[verifier::external_body] pub fn reader_aborted(r: ReaderHandle) -> (a: ReaderHandle) ensures a.aborted() { r }
 #[verifier::external_body] pub fn reader_drop(r: ReaderHandle)
-    requires r.aborted(),  // @ob C08.conns.restart_reader_for.the_replaced_reader_task_is_aborted_not_detached
+    requires r.aborted(),  // @ob C08+C19.conns.restart_reader_for.the_replaced_reader_task_is_aborted_not_detached
 { }
 #[verifier::external_body] pub fn readers_remove(m: &mut HashMap<u64, ReaderHandle>, k: u64) -> (r: Option<ReaderHandle>)
     ensures final(m)@ == old(m)@.remove(k), (r is Some) == old(m)@.contains_key(k),
 { m.remove(&k) }
 #[verifier::external_body] pub fn readers_install(m: &mut HashMap<u64, ReaderHandle>, k: u64, v: ReaderHandle)
-    requires !old(m)@.contains_key(k),  // @ob C08.conns.restart_reader_for.no_reader_handle_is_overwritten_while_its_task_runs
+    requires !old(m)@.contains_key(k),  // @ob C08+C19.conns.restart_reader_for.no_reader_handle_is_overwritten_while_its_task_runs
     ensures final(m)@ == old(m)@.insert(k, v),
 { m.insert(k, v); }
 // HashSet<u64>
